@@ -311,6 +311,22 @@ def generators_of_setup(urn):
     return list(found.values())
 
 
+def two_switch_case(origin, k, j):
+    """two callers of a FRESH generator, both possibly inside generate() at once: A to its line k, B to its line j, A to
+    the end, B to the end.  Returns (ids of A, ids of B, whether A's line k exists)"""
+    import interleave as IL
+    import bobocep.cep.gen.event_id as m
+    gen = m.BoboGenEventIDUnique("u") if origin == "direct" else generators_of_setup("u")[0]
+    old = m.time
+    m.time = lambda: 5
+    try:
+        r = IL.two_switches(lambda: [gen.generate() for _ in range(2)], lambda: [gen.generate() for _ in range(2)],
+                            ("event_id.py",), k, j)
+    finally:
+        m.time = old
+    return list(r["a"] or []), list(r["b"] or []), r["reached"], [x for x in (r["a_exc"], r["b_exc"]) if x is not None]
+
+
 def interleave_half(res):
     import bobocep.cep.gen.event_id as m
     n, lines = 0, 0
@@ -335,6 +351,28 @@ def interleave_half(res):
                     break
                 lines = max(lines, k)
             res.note_case(("line-interleave", origin, tuple(clock)), True)
+    n2 = 0
+    for origin in ("direct", "setup"):
+        stop = False
+        for k in range(1, 14):
+            for j in range(1, 14):
+                a, b, reached, excs = two_switch_case(origin, k, j)
+                if not reached:
+                    stop = True
+                    break
+                n2 += 1
+                if excs or len(set(a + b)) != len(a + b) or len(a + b) != 4:
+                    res.failures.append(dict(signature="duplicate-id-two-callers-inside-generate",
+                                             what="two callers of a fresh generator (%s), first paused at its line %d, second at its "
+                                                  "line %d: A got %s, B got %s%s" % ("constructed directly" if origin == "direct" else
+                                                  "of an engine from BoboSetupSimple", k, j, a, b, " raised %r" % excs if excs else ""),
+                                             case=dict(origin=origin, line=k, line_b=j, interleaving="two-switches", clock=[5]), detail=None))
+                    stop = True
+                    break
+            if stop:
+                break
+        res.note_case(("two-switches", origin), True)
+    res.extra["two_switch_schedules"] = n2
     res.extra["line_interleavings"] = n
     res.extra["lines_of_generate_reached"] = lines
 
@@ -401,8 +439,8 @@ def hook_case(seq):
     m.time = lambda: next(it)
     try:
         g2 = m.BoboGenEventIDUnique("h")
-        if not hasattr(g2, "_lock"):
-            return None
+        if not all(hasattr(getattr(g2, "_lock", None), a) for a in ("acquire", "release", "__enter__", "__exit__")):
+            return None      # no lock object to hook (the line-level oracles below do not need one)
         hook = ReleaseHook(g2, g2._lock)
         g2._lock = hook
         mine = [g2.generate() for _ in seq]
@@ -428,6 +466,13 @@ def replay(obj):
     if "clock" not in case:
         print(obj)
         return 0
+    if case.get("interleaving") == "two-switches":
+        a, b, _, excs = two_switch_case(case["origin"], case["line"], case["line_b"])
+        print("caller A (paused at its line %d):" % case["line"], a)
+        print("caller B (paused at its line %d):" % case["line_b"], b, excs or "")
+        dup = len(set(a + b)) != len(a + b) or bool(excs) or len(a + b) != 4
+        print("duplicate identifiers" if dup else "identifiers pairwise distinct")
+        return 1 if dup else 0
     if case.get("interleaving") == "line":
         import bobocep.cep.gen.event_id as m
         gens = [m.BoboGenEventIDUnique("u")] if case["origin"] == "direct" else generators_of_setup("u")
